@@ -153,7 +153,7 @@ Definition g_encode (nw : nat) (s : gstate) : list N :=
   ++ flat_map (fun g => enc_bool (rd s g) :: N.of_nat (gc s g) :: enc_gpc (gp s g) ++ enc_list (map enc_on (gres s g)))
               (seq 0 (ng s)).
 
-Record gxres := mkGX { gx_finals : list gstate; gx_seen : list (list N); gx_cov : list N; gx_out : bool }.
+Record gxres := mkGX { gx_finals : list gstate; gx_seen : trie; gx_cov : list N; gx_out : bool }.
 Fixpoint g_explore (fixed : bool) (nw fuel : nat) (todo : list gstate) (r : gxres) : gxres :=
   match fuel with
   | O => match todo with [] => r | _ => mkGX (gx_finals r) (gx_seen r) (gx_cov r) true end
@@ -162,11 +162,11 @@ Fixpoint g_explore (fixed : bool) (nw fuel : nat) (todo : list gstate) (r : gxre
       | [] => r
       | s :: rest =>
           let e := g_encode nw s in
-          if seen_in e (gx_seen r) then g_explore fixed nw f rest r
+          if tmem e (gx_seen r) then g_explore fixed nw f rest r
           else
             let sc := g_succs fixed nw s in
             g_explore fixed nw f (map fst sc ++ rest)
-              (mkGX (match sc with [] => s :: gx_finals r | _ => gx_finals r end) (e :: gx_seen r)
+              (mkGX (match sc with [] => s :: gx_finals r | _ => gx_finals r end) (tadd e (gx_seen r))
                     (fold_left (fun cv p => ins_cov (snd p) cv) sc (gx_cov r)) (gx_out r))
       end
   end.
